@@ -504,6 +504,10 @@ func runC04(c *core.Ctx) {
 			o, s := reqRun(cfg, cs)
 			return core.Exec{Sched: s, Outcome: fmt.Sprintf("schedule-level closed=%v errs=%v", o.closed, o.errs), Viol: c04Judge(cs, o)}
 		})
+		c.ExploreSlow(cs, vsched.Config{}, []int{0, 100}, func(cfg vsched.Config) core.Exec {
+			o, s := reqRun(cfg, cs)
+			return core.Exec{Sched: s, Outcome: fmt.Sprintf("closed=%v errs=%v", o.closed, o.errs), Viol: c04Judge(cs, o)}
+		})
 	}
 }
 
@@ -518,7 +522,7 @@ func init() {
 				Prefix []int    `json:"prefix"`
 			}
 			if json.Unmarshal(raw, &w) == nil && w.Label != nil && w.Label.Sched {
-				o, _ := reqRun(vsched.Config{Prefix: w.Prefix}, *w.Label)
+				o, _ := reqRun(core.CfgFromReplay(raw), *w.Label)
 				det := fmt.Sprintf(" [closed=%v errs=%v nodes=%d termDelivered=%v cancelWhenDone=%v responderDone=%v wire=%v state=%q]", o.closed, o.errs, o.visits, o.termDelivered, o.cancelWhenDone, o.responderDone, o.wireReqs, o.stateLeft)
 				if v := c04Judge(*w.Label, o); v != nil {
 					return v.Signature + ": " + v.What + det
